@@ -479,6 +479,11 @@ fn gen_free_element(
             if rng.chance(1, 2) {
                 g.push(format!("{ws}{pf}TXTPP#run not executed"));
             }
+            if rng.chance(1, 3) {
+                // text that looks like a temp directive naming an existing, unrelated file
+                let (pp, _) = rng.pick(plains);
+                g.push(format!("{ws}{pf}TXTPP#temp {}", rel_path(dir, pp)));
+            }
             b.group(g);
             b.push("after write".into());
         }
